@@ -149,6 +149,7 @@ def run(rep, tier):
     taint_rules(rep, F)
     who_may_call(rep, F)
     wiring(rep, F)
+    shared_state(rep, F)
     if tier == "thorough":
         for cfg in ("allfeat", "nodefault"):
             F2 = Facts(cfg)
@@ -349,3 +350,47 @@ def wiring(rep, F):
                     rep.bad("R20.4", "cfg-multithreading:%s" % os.path.relpath(os.path.join(d, f), extract.REPO), "code conditional on the multithreading feature inside geo/src (not covered by the delegation rule)")
     if n == 0:
         rep.ok("R20.4", "no-cfg-multithreading-in-geo-src")
+
+
+class _Alias:
+    """forwards to the report under another rule id (C17's freshness rules are also a determinism rule: R20.5)"""
+    def __init__(self, rep, rule):
+        self.rep, self.r = rep, rule
+        self.info = rep.info
+
+    def rule(self, rid, text):
+        pass
+
+    def ok(self, rid, key, sample=None):
+        self.rep.ok(self.r, key, sample=sample)
+
+    def bad(self, rid, key, msg, where=None, detail=None):
+        self.rep.bad(self.r, key, msg + " — a later call with equal input then sees state left by an earlier call (results depend on the call history)", where=where, detail=detail)
+
+    def floor(self, rid, *a):
+        self.rep.floor(self.r, *a)
+
+
+def shared_state(rep, F):
+    """R20.5: the only values geo caches across calls behind `&self` with interior mutability are the edges of a PreparedGeometry's graph
+    (Rc<RefCell<Edge>>); every relate() must work on fresh copies (C17 R17.1/R17.2), otherwise repeated calls with equal input differ."""
+    from . import c17
+    rep.rule("R20.5", "no call mutates state that a later call reads: PreparedGeometry hands out freshly allocated edges on every path; and no other pub type of geo / geo_types "
+                      "stores Rc<RefCell>, Cell, RefCell, Mutex, RwLock or atomics")
+    c17.freshness(_Alias(rep, "R20.5"), F)
+    # inventory of interior mutability in struct fields: only the known graph / sweep internals
+    allowed = re.compile(r"^geo::algorithm::(relate::|sweep::|monotone::|bool_ops::|triangulate_delaunay|stitch)")
+    n = 0
+    for name, adt in F.adts.items():
+        if not (name.startswith("geo::") or name.startswith("geo_types::")):
+            continue
+        for v in adt.get("variants", []):
+            for f in v.get("fields", []):
+                ty = str(f.get("ty", ""))
+                if re.search(r"\b(core::cell::(Cell|RefCell|UnsafeCell|OnceCell)|std::sync::(Mutex|RwLock|OnceLock)|core::sync::atomic::|std::sync::mutex::Mutex|std::sync::poison::)", ty):
+                    n += 1
+                    if allowed.search(name):
+                        rep.ok("R20.5", "interior-mutability:%s.%s" % (short(name), f.get("name")))
+                    else:
+                        rep.bad("R20.5", "interior-mutability:%s.%s" % (short(name), f.get("name")), "the type %s stores interior-mutable state (%s) outside the graph / sweep internals" % (name, ty[:80]))
+    rep.info["interior_mutable_fields"] = n
